@@ -204,6 +204,11 @@ func (w *world) main() {
 					closeSignal.Recv()
 					quota = -1
 				}
+				// asked for again each time: it has to be the one channel
+				if again := pw.Status(); again != status {
+					w.violate("status-channel-changed", "Status() returned a different channel on a later call")
+					status = again
+				}
 				v, ok := status.Recv2()
 				if !ok {
 					return
